@@ -932,14 +932,14 @@ func (e *Engine) assume(st *State, cond *smt.Term, why string) {
 	}
 	e.res.Assumed[why]++
 	if len(st.replay) > 0 {
-		st.PC = append(st.PC, cond)
+		e.assertPC(st, cond)
 		return
 	}
 	r, m := e.check(st, cond, true)
 	if r == smt.Unsat {
 		panic(abort{"infeasible", "engine assumption excludes this path: " + why})
 	}
-	st.PC = append(st.PC, cond)
+	e.assertPC(st, cond)
 	st.Model = m
 }
 
